@@ -62,3 +62,34 @@ Proof.
   unfold droppable_on_gray_change in H. destruct (cname_eqb (c_name c) name_sRGB), (cname_eqb (c_name c) name_iCCP); cbn in H; try discriminate; auto.
 Qed.
 Print Assumptions C14_gray_change_drops_colourspace.
+
+(* ================================================================ down to what is written (optimize_png_data = what `output` serialises) *)
+From OxiVerif Require Import Model.PngData Model.Evaluate Model.Optimize Proofs.ContainerOk Proofs.SwitchesFile.
+
+(* an ICC profile that is kept (as is or recompressed): the image written has the grayness of the input *)
+Theorem C14_written_icc_kept_same_grayness : forall e o p p', optimize_png_data e p o = Ok p' ->
+  (icc_decide e (aux_chunks p) o = IccKept \/ exists c, icc_decide e (aux_chunks p) o = IccRecompressed c) ->
+  is_gray (ctype (hdr (raw p'))) = is_gray (ctype (hdr (raw p))).
+Proof. exact data_icc_kept_same_grayness. Qed.
+Print Assumptions C14_written_icc_kept_same_grayness.
+
+(* sRGB-tagged, no ICC profile, stripping disabled: the image written has the grayness of the input *)
+Theorem C14_written_srgb_same_grayness : forall e o p p', optimize_png_data e p o = Ok p' ->
+  chunk_position name_iCCP (aux_chunks p) O = None -> has_chunk name_sRGB (aux_chunks p) = true -> strip_is_none (strip o) = true ->
+  is_gray (ctype (hdr (raw p'))) = is_gray (ctype (hdr (raw p))).
+Proof. exact data_srgb_same_grayness. Qed.
+Print Assumptions C14_written_srgb_same_grayness.
+
+(* whenever the image written moved between grayscale and colour, no sRGB / iCCP chunk is written *)
+Theorem C14_written_gray_change_drops_colourspace : forall e o p p', optimize_png_data e p o = Ok p' ->
+  forall c, Bool.eqb (is_gray (ctype (hdr (raw p)))) (is_gray (ctype (hdr (raw p')))) = false -> In c (aux_chunks p') ->
+  cname_eqb (c_name c) name_sRGB = false /\ cname_eqb (c_name c) name_iCCP = false.
+Proof. exact data_gray_change_drops_colourspace. Qed.
+Print Assumptions C14_written_gray_change_drops_colourspace.
+
+(* the buffer guess of extract_icc (2 x compressed + 1000, hypothesis of C14_iccp_recompressed_same_profile) is the literal of the current source *)
+From OxiVerif Require Import Proofs.SrcLiteralIcc.
+From OxiVerif Require Gen.SrcConsts.
+Theorem C14_icc_guess_literal_is_source : SrcConsts.src_icc_guess_factor = 2 /\ SrcConsts.src_icc_guess_slack = 1000.
+Proof. exact icc_guess_is_source. Qed.
+Print Assumptions C14_icc_guess_literal_is_source.
